@@ -392,6 +392,7 @@ func main() {
 			}
 		}
 	}
+	e.catalog(10)
 	if big {
 		// around the upload buffer: chunk sizes with different remainders of B, lengths around B and 2B
 		type bc struct{ C, L int }
